@@ -36,6 +36,92 @@ SUFFIX = [["LsOpen", "same"], ["AppWrite", 4], ["LsSyncAndWait"], ["AuditNow"], 
           ["AppCheckpoint", "TRUNCATE"]]
 
 
+def concurrency_conformance(rep, wd, cases, events):
+    """Trace validation (Trace_Concurrency.tla): the hook events recorded from the real goroutines of the blocks whose processes are
+    the model's must be a behaviour of Concurrency.tla. A rejected trace is a DIVERGENCE note; it is dropped and the rest is re-run."""
+    model_ops = {k: v for k, v in MODEL_OPS.items()}
+    traces = {}
+    for c in cases:
+        if c["label"] != "sim":
+            continue
+        blk = [st for st in c["sched"] if st[0] == "Par"][0][1]
+        if any(model_ops.get(p) != op for p, op in blk["procs"].items()):
+            continue
+        lines = [{"t": c["id"], "p": "", "kind": "reset", "hook": "", "open": True, "bind": False}]
+        for e in events.get(c["id"], []):
+            if e["op"] == "ParEnd":
+                break
+            if e["op"] != "ParStep":
+                continue
+            proc, what = e["arg"].split(":", 1)
+            if what == "free":
+                break           # from here on the goroutines ran freely: the order of the lines is not the order of the events
+            kind = what if what in ("at", "done") else "other"
+            lines.append({"t": c["id"], "p": proc, "kind": kind, "hook": e["res"] if kind == "at" else "", "open": bool(e["open"]),
+                          "bind": not e.get("flagsStale", False)})
+        if len(lines) > 2:
+            traces[c["id"]] = lines
+    accepted, rejected, nlines = 0, [], 0
+    todo = dict(traces)
+    for _ in range(6):
+        if not todo:
+            break
+        order = sorted(todo)
+        flat = [x for t in order for x in todo[t]]
+        with open(os.path.join(wd, "conc_trace.ndjson"), "w") as fh:
+            for x in flat:
+                fh.write(json.dumps(x) + "\n")
+        r = vlib.run_tlc("Trace_Concurrency", "Trace_Concurrency.cfg", wd, workers=1, timeout=1200)
+        vlib.tlc_expect_ok(r, "Trace_Concurrency")
+        rep.add_tlc("Trace_Concurrency", r, "%d hook lines of %d real traces" % (len(flat), len(order)))
+        m = re.search(r'<<"HWM", (\d+), (\d+)>>', r.out)
+        if not m:
+            raise vlib.MachineryError("Trace_Concurrency printed no high-water mark:\n%s" % r.out[-1500:])
+        hwm = int(m.group(1))
+        if hwm > len(flat):
+            accepted += len(order)
+            nlines += len(flat)
+            break
+        bad = flat[hwm - 1]
+        k = order.index(bad["t"])
+        accepted += k
+        nlines += sum(len(todo[t]) for t in order[:k])
+        pos = hwm - sum(len(todo[t]) for t in order[:k])
+        rejected.append({"trace": bad["t"], "line": pos, "event": bad, "before": todo[bad["t"]][max(0, pos - 4):pos - 1]})
+        for t in order[:k + 1]:
+            del todo[t]
+    # the binding must be able to say no: one accepted trace with a second, impossible acquisition of the executor semaphore inserted
+    # right after a real one (and one with the observed IsOpen() flag flipped) must be rejected
+    selftest = {}
+    bad_ids = {rj["trace"] for rj in rejected}
+    for t, lines in sorted(traces.items()):
+        if t in bad_ids or selftest:
+            continue
+        for k, x in enumerate(lines):
+            if x["kind"] == "at" and x["hook"] == "exec.acquired" and x["p"] in ("syncdb", "syncdb2"):
+                later = [y for y in lines[k + 1:] if y["kind"] == "at" and y["hook"] in ("exec.acquired", "close.locked") and y["p"] != x["p"]]
+                if not later:
+                    continue
+                y = dict(later[0])
+                mut1 = lines[:k + 1] + [y] + lines[k + 1:]
+                mut2 = [dict(z) for z in lines]
+                mut2[k]["open"], mut2[k]["bind"] = not mut2[k]["open"], True
+                for name, mut in (("double_acquire", mut1), ("flipped_open_flag", mut2)):
+                    with open(os.path.join(wd, "conc_trace.ndjson"), "w") as fh:
+                        for z in mut:
+                            fh.write(json.dumps(z) + "\n")
+                    r = vlib.run_tlc("Trace_Concurrency", "Trace_Concurrency.cfg", wd, workers=1, timeout=600)
+                    m = re.search(r'<<"HWM", (\d+), (\d+)>>', r.out)
+                    selftest[name] = "rejected at line %s of %d" % (m.group(1), len(mut)) if m and int(m.group(1)) <= len(mut) else "ACCEPTED"
+                break
+    if any(v == "ACCEPTED" for v in selftest.values()):
+        raise vlib.MachineryError("Trace_Concurrency accepted a corrupted trace: %s" % selftest)
+    rep.cov["concurrency_trace_validation"] = {"traces": len(traces), "accepted": accepted, "lines": nlines, "rejected": rejected[:3],
+                                               "corrupted_traces": selftest}
+    for rj in rejected[:3]:
+        rep.notes.append("DIVERGENCE module=Concurrency (trace validation) trace=%d line=%d event=%s" % (rj["trace"], rj["line"], json.dumps(rj["event"])))
+
+
 def main():
     tier, replay_path = "quick", None
     args = sys.argv[1:]
@@ -144,6 +230,8 @@ def main():
             rep.sample({"source": c["label"], "block": c["sched"][[k for k, st in enumerate(c["sched"]) if st[0] == "Par"][0]][1],
                         "observed": [[e["op"], e["arg"], e["res"][:40], e["open"], e["hasRead"]] for e in evs if e["op"].startswith("Par")][:30]})
         corelib.classify(rep, PROP, by_id, events, verdicts, hazards, set(INV), PROP)
+        if not replay_path:
+            concurrency_conformance(rep, wd, cases, events)
 
         # ---- daemon mode: the Store's own goroutines, free-running
         dcases = []
